@@ -88,6 +88,62 @@ impl B {
     }
 }
 
+/// A directed program for the timing oracle: local spans (under a span scope, or captured by a
+/// local collector and still open at the collect) whose durations exceed one second, with
+/// events, short siblings and a thread-safe child alongside.
+pub fn long_local_program(cancelable: bool, rng: &mut crate::rng::Rng) -> Program {
+    let mut b = B::new(2, cancelable);
+    let long = |rng: &mut crate::rng::Rng| Op::Sleep { us: rng.range(1_000_200, 1_200_000) as u32 };
+    let short = |rng: &mut crate::rng::Rng| Op::Sleep { us: rng.range(50, 900) as u32 };
+    let r = b.root(0);
+    if rng.chance(1, 2) {
+        b.guard(0, r);
+        let _a = b.lenter(0);
+        b.ladd_event(0);
+        if rng.chance(1, 2) {
+            let _b = b.lenter(0);
+            b.ladd_event(0);
+            b.op(0, long(rng));
+            b.ladd_event(0);
+            b.pop(0);
+        } else {
+            b.op(0, long(rng));
+        }
+        b.ladd_event(0);
+        let _c = b.lenter(0);
+        b.op(0, short(rng));
+        b.ladd_event(0);
+        b.pop(0);
+        let k = b.child(1, r);
+        b.op(1, Op::Elapsed { span: r });
+        b.finish(1, k);
+        b.pop(0);
+        b.pop(0);
+    } else {
+        let set = new_local_label();
+        b.op(0, Op::LcStart { set });
+        let _d = b.lenter(0);
+        b.ladd_event(0);
+        let _e = b.lenter(0);
+        b.op(0, short(rng));
+        b.pop(0);
+        if rng.chance(1, 2) {
+            let _f = b.lenter(0);
+        }
+        b.op(0, long(rng));
+        b.ladd_event(0);
+        // the spans still open end at the collect
+        b.op(0, Op::LcCollectOpen);
+        let p2 = b.root(1);
+        b.op(0, Op::PushSet { set, parents: vec![r, p2] });
+        b.op(0, Op::ToRecords { set, trace_id: 0x77u128 << 64 | 5, span_id: 0x99 });
+        b.finish(1, p2);
+    }
+    b.op(0, Op::Elapsed { span: r });
+    b.finish(0, r);
+    b.done()
+}
+
 fn stepped(max_cycles: usize, park: bool) -> RunOpts {
     RunOpts {
         max_cycles,
